@@ -26,6 +26,9 @@ def use_source():
     got = os.path.dirname(os.path.dirname(os.path.abspath(aiuti.__file__)))
     if os.path.realpath(got) != os.path.realpath(SRC):
         raise SystemExit(f'machinery error: aiuti imported from {got}, wanted {SRC}')
+    import aiuti.asyncio
+    from . import vloop
+    vloop.virtualise_clocks(aiuti.asyncio)
     return SRC
 
 
